@@ -294,6 +294,7 @@ def collect_I(pid, tier, seed, include_rejected=False, source="I", props_filter=
     else:
         r = artifacts.get_s(tier, seed)["instances"]
     obs = []
+    known_mods = {s_.mod for s_ in artifacts.known_finding_specs()}
     meta = {"instances": 0, "evaluations": 0, "samples": [], "cache_hit": r.get("cache_hit"), "rejected": sorted(r.get("rejected", {})),
             "layer_wall_s": r.get("wall_s", 0)}
     if r.get("build_error"):
@@ -306,6 +307,8 @@ def collect_I(pid, tier, seed, include_rejected=False, source="I", props_filter=
             continue
         if modname in r.get("rejected", {}):
             continue
+        if props_filter == "any" and modname in known_mods:
+            continue   # declarations kept only to exhibit a recorded finding of another property
         if not m.get("done"):
             obs.append(Ob("I/%s" % modname, "undecided", "native", "instance driver did not finish this module"))
             continue
